@@ -210,6 +210,8 @@ def alphabet(B, N, rng):
     def query_op(s):
         s.expect(queries)
         s.entropy([0])
+        s.entropy(list(range(N)))
+        s.entropy([N - 1])
         s.sample(3)
         s.density_matrix
         if s.r == 0:
@@ -486,9 +488,17 @@ def run_walk(shard, rec, B):
                     circ = [C.onsite_rcc(N), C.global_rcc(N)][int(rng.integers(2))]
                     s = list(B.lib.ClassicalShadow(s, circ).snapshots(1))[0]
                     op = "shadow"
+                elif k == 13 and rng.integers(3) == 0:
+                    # the encoding map of the current state (public to_map) is applied to a fresh state, which takes its place
+                    m_ = s.to_map()
+                    s = st.zero_state(N).set_r(int(rng.integers(0, N + 1)))
+                    s.transform_by(m_)
+                    op = "to_map.transform"
                 elif k == 13 and rng.integers(2):
                     # read-only queries in the middle of a history must leave a valid tableau behind as well
                     s.entropy(gen.rand_subset(rng, N, int(rng.integers(1, N + 1))))
+                    s.entropy(list(range(N)))
+                    s.entropy(np.ones(N, dtype=bool))
                     s.expect(B.PauliList(gen.rand_list(rng, 3, N), np.zeros(3, dtype=np.int64)))
                     s.sample(2)
                     s.to_map()
@@ -572,6 +582,7 @@ def run_wide(shard, rec, B):
                         op = "measure_layer"
                     else:
                         s.entropy([int(x) for x in rng.choice(N, size=N // 2, replace=False)])
+                        s.entropy(list(range(N)))
                         s.expect(B.PauliList(gen.rand_list(rng, 2, N), np.zeros(2, dtype=np.int64)))
                         s.sample(2)
                         op = "queries"
